@@ -962,8 +962,11 @@ func (x *Exec) siteClausesNamed(fr, top *Frame, st *State, callee string, instr 
 			lbl = fmt.Sprintf("%d", clauseOrdinal(top.ctr, c))
 		}
 		name := x.siteName(fmt.Sprintf("%s/site.%s.%s@%s", x.prog.relName(x.topFn), c.Callee, lbl, x.srcText(instr)))
-		x.oblige(st, "site", name, c.Tags, instr.Pos(), g)
+		siteObl := x.oblige(st, "site", name, c.Tags, instr.Pos(), g)
 		x.smt.Assert(implies(st.pc, g)) // proven here, available afterwards (intermediate assertion)
+		// a clause that is false in every state that reaches this call would, once assumed, make the rest
+		// of the function hold vacuously: the state after the clause must still be reachable
+		x.covers = append(x.covers, &Cover{Name: strings.Replace(name, "/site.", "/cover.site.", 1), prefix: len(x.smt.asserts), pc: st.pc, before: st.pc, oblig: siteObl, smt: x.smt})
 	}
 }
 
